@@ -108,7 +108,10 @@ pub fn managed_race(prop: &'static str, seed: u64, close: bool) -> RaceOut {
                     break;
                 }
                 let _ = cnt2.entered.fetch_add(1, Ordering::SeqCst);
-                let r = std::panic::catch_unwind(std::panic::AssertUnwindSafe(|| poll_once(pool.timeout_get(&NB))));
+                // every fourth call is a blocking get() that is polled once and dropped: if no slot is free
+                // that is an abandonment at the waiting point
+                let blocking = (i + 2 * t) % 4 == 1;
+                let r = std::panic::catch_unwind(std::panic::AssertUnwindSafe(|| if blocking { poll_once(pool.get()) } else { poll_once(pool.timeout_get(&NB)) }));
                 let _ = cnt2.left.fetch_add(1, Ordering::SeqCst);
                 match r {
                     Ok(Some(Ok(o))) => {
@@ -119,6 +122,7 @@ pub fn managed_race(prop: &'static str, seed: u64, close: bool) -> RaceOut {
                     }
                     Ok(Some(Err(PoolError::Timeout(TimeoutType::Wait)))) | Ok(Some(Err(PoolError::Closed))) => {}
                     Ok(Some(Err(e))) => return Err(format!("get failed with {:?}", e)),
+                    Ok(None) if blocking => {}
                     Ok(None) => return Err("zero-wait get suspended".into()),
                     Err(p) => return Err(format!("get panicked: {}", vh_common::panic_message(&*p))),
                 }
